@@ -807,7 +807,7 @@ func c18MakeTask(t *tape.Tape, p *c18Pool) c18Task {
 		src2 := p.files[t.Intn(len(p.files))]
 		rect2 := c18Rects[t.Intn(len(c18Rects))]
 		rz := p.rz
-		return c18Task{name: fmt.Sprintf("long-lived Renderer borrowing pooled rasterisers (first decode reads %d of %d bytes)", cut, len(src)) + suffix, run: func() string {
+		return c18Task{name: "long-lived Renderer borrowing pooled rasterisers" + suffix + fmt.Sprintf(" (first decode reads %d of %d bytes)", cut, len(src)), run: func() string {
 			var r render.Renderer
 			who := "the Renderer of a pipeline"
 			l1 := rz.take(who)
